@@ -54,19 +54,19 @@ func gadgetRowPlaintext(p rlwe.Parameters, levelQ, levelP, base2, i, j int, sIn 
 		group = 1
 	}
 	moduli := append(append([]uint64{}, qs...), ps...)
-	out := make([]*big.Int, len(sIn))
-	res := make([]uint64, len(moduli))
+	rows := make([][]uint64, len(moduli))
+	for idx := range rows {
+		rows[idx] = make([]uint64, len(sIn))
+	}
 	for w := range sIn {
 		v := new(big.Int).Mul(factor, sIn[w])
 		for idx := range moduli {
-			res[idx] = 0
 			if idx <= levelQ && idx/group == i {
-				res[idx] = ref.ModU(v, moduli[idx])
+				rows[idx][w] = ref.ModU(v, moduli[idx])
 			}
 		}
-		out[w] = ref.CRT(res, moduli)
 	}
-	return out
+	return rk.PolyCRT(rows, moduli)
 }
 
 type keyJudge struct {
@@ -129,6 +129,7 @@ func (kj *keyJudge) finish() {
 	c, p := kj.c, kj.p
 	se := rk.Sigma(p.Xe(), p.N())
 	c.Note("%s: %d rows, %d pooled coefficients, std %.3f (nominal %.3f)", kj.cfg, kj.rows, kj.pool.N, kj.pool.Std(), se)
+	c.Cover("stat-ratio(empirical/nominal sigma)", fmt.Sprintf("%.1f", kj.pool.Std()/se))
 	if kj.pool.NonZero == 0 {
 		c.Fail(kj.gen+"error-all-zero", "%s: all %d pooled error coefficients of the key rows are zero", kj.cfg, kj.pool.N)
 		return
@@ -142,7 +143,7 @@ func (kj *keyJudge) finish() {
 	}
 }
 
-func keyScenario(rt ring.Type, logN int, ch rk.Chain, np int, kind string, bound int, tier string) engine.Scenario {
+func keyScenario(rt ring.Type, logN int, ch rk.Chain, np int, kind string, bound int, allGalois bool) engine.Scenario {
 	ch = withP(ch, np)
 	name := fmt.Sprintf("keys/%s/%s/logN%d/%s/P%d", kind, ringName(rt), logN, ch.Name, np)
 	return engine.Scenario{Name: name, Bound: bound, Fn: func(c *engine.Chooser) {
@@ -163,10 +164,10 @@ func keyScenario(rt ring.Type, logN int, ch rk.Chain, np int, kind string, bound
 		compressed := c.Bool("Compressed")
 		var galEl uint64
 		if kind == "gk" {
-			els := []uint64{p.GaloisElement(1), p.GaloisElement(-1), p.GaloisElement(3)}
+			els := []uint64{p.GaloisElement(1), p.GaloisElement(-1)}
 			if rt == ring.Standard {
-				els = append(els, uint64(2*n-1), 3)
-				if tier == "thorough" {
+				els = append(els, uint64(2*n-1))
+				if allGalois { // the whole group (thorough tier, first two Q shapes)
 					els = nil
 					for g := uint64(3); g < uint64(2*n); g += 2 {
 						els = append(els, g)
@@ -192,7 +193,14 @@ func keyScenario(rt ring.Type, logN int, ch rk.Chain, np int, kind string, bound
 		}
 		kj := &keyJudge{c: c, p: p, cfg: cfg, gen: "C03/keys/" + kind + "/", c1s: map[string]bool{}}
 		if isTernary(p.Xe()) && levelQ < L {
+			// known defect (FINDINGS.md): judged once per key kind, on the leaf with every other axis
+			// at its default, so that the finding cannot crowd out other violations
+			if base2 != 0 || compressed || xsI != 0 || levelP != p.MaxLevelP() || levelQ != L-1 || (kind == "gk" && galEl != p.GaloisElement(1)) {
+				c.Skip("input class with a known defect, judged on its representative leaf")
+				return
+			}
 			kj.known = sigTernaryXeKey
+			c.Cover("known-class", sigTernaryXeKey)
 		}
 		evkp := rlwe.EvaluationKeyParameters{LevelQ: &levelQ, LevelP: &levelP, BaseTwoDecomposition: &base2, Compressed: compressed}
 		// several keys until the pool is large enough for the lower-bound clauses
